@@ -88,3 +88,14 @@ pub fn baseline_trace(p: &Puppet, opts: &DumpOpts) -> Vec<Call> {
     let out = env_dump(p, &EnvSpec { opts: opts.clone(), ..Default::default() }, HashMap::new(), None);
     out.trace
 }
+
+/// Plans that force the writer onto one of its three remote-memory strategies for a whole dump.
+pub fn strategy_plan(which: u8) -> Vec<(String, Alt)> {
+    match which {
+        // process_vm_readv unavailable (old kernel / seccomp): /proc/<pid>/mem is used
+        1 => vec![("vmread#*".into(), Alt::Errno(libc::ENOSYS))],
+        // neither: word-by-word PTRACE_PEEKDATA
+        2 => vec![("vmread#*".into(), Alt::Errno(libc::ENOSYS)), ("open:/proc/*/mem#*".into(), Alt::Errno(libc::EACCES))],
+        _ => vec![],
+    }
+}
